@@ -393,3 +393,68 @@ def logical_physical_rule(chk, P, rule, min_pairs=2):
     if n < min_pairs:
         raise AnalysisBroken('%s: only %d logical/physical address pairs found' % (rule, n))
     return n
+
+
+def errno_rule(chk, facts, rule, exes, unit_ok=None):
+    """ChkIO() and friends report whatever errno holds.  A call is meaningful
+    only under a failure test of the operation it checks, or after errno was
+    cleared on every path (errno = 0; <output calls>; ChkIO())."""
+    def is_errno(e):
+        e = strip(e)
+        return e[0] == 'u' and e[1] == '*' and strip(e[2])[0] == 'call' and callee_name(strip(e[2])) == '__errno_location'
+
+    def resets(ex):
+        return any(is_assign(m) and m[1] == '=' and is_errno(m[2]) and const_val(m[3]) == 0 for m in walk_own(ex))
+    iovars = {}
+
+    def failure_test(f, cond):
+        """the condition looks at the result of a call, or at a variable that received one"""
+        vs = iovars.get(f.qname)
+        if vs is None:
+            vs = set()
+            for b, i, ln, m in f.nodes():
+                if is_assign(m) and m[1] == '=' and nocast(m[3])[0] == 'call':
+                    vs.add(strip(m[2]))
+                if m[0] in ('decl',) and m[2] is not None and nocast(m[2])[0] == 'call':
+                    vs.add(('l', m[1]))
+                if m[0] == 'call':
+                    for a in m[2]:
+                        a = nocast(a)
+                        if a[0] == 'u' and a[1] == '&':
+                            vs.add(strip(a[2]))
+            iovars[f.qname] = vs
+        def res(e):
+            e = nocast(e)
+            return isinstance(e, tuple) and len(e) > 1 and (e[0] == 'call' or e in vs)
+        for pol in (True, False):
+            for a in atoms(cond, pol):
+                if a[0] in ('z', 'nz') and res(a[1]):
+                    return True
+                if a[0] == 'cmp' and (res(a[2]) or res(a[3])):
+                    return True
+        return False
+    seen = set()
+    n = 0
+    for exe in exes:
+        P = facts.program(exe)
+        for f in P.all_funcs():
+            if f.qname in seen or f.name in ('ChkIO', 'ChkXIO', 'ChkStrIO') or (unit_ok is not None and not unit_ok(f.unit.name)):
+                continue
+            seen.add(f.qname)
+            k = 0
+            for b, i, ln, c in f.calls({'ChkIO', 'ChkXIO', 'ChkStrIO'}):
+                n += 1
+                k += 1
+                ok1, w = f.guarded(b, i, lambda l: False, resets)
+                # "if (<operation failed>) ChkIO()": every edge into the call's block is a failure test and nothing
+                # else was called in the block before it
+                inc = [(s_, l) for s_, d_, l in f.edges() if d_ == b]
+                ok2 = ok1 or (bool(inc) and all(l is not None and l[0] in ('T', 'F') and failure_test(f, l[1]) for s_, l in inc) and
+                              not any(m[0] == 'call' and callee_name(m) not in ('getmessage', 'catgetmessage')
+                                      for j in range(i) for m in walk_own(f.blocks[b]['elems'][j][1])))
+                chk.ob(rule, '%s:%s:%s@%d' % (f.unit.name, f.name, callee_name(c), k), ok1 or ok2, f.loc(ln),
+                       'after errno = 0' if ok1 else 'under a failure test' if ok2 else
+                       '%s() is called unconditionally on a path on which errno was never cleared (%s): a stale errno of an '
+                       'earlier, unrelated call (e.g. a failed include-path probe) is reported as a fatal I/O error' %
+                       (callee_name(c), ' '.join(w[-4:])))
+    return n
